@@ -171,6 +171,8 @@ class KPoints(BaseObject):
         # Delete k-points and weights
         self.k = xp.delete(self.k, idx_to_remove, axis=0)
         self.wk = xp.delete(self.wk, idx_to_remove)
+        # The setters above reset the build status, mark the reduced k-points as built so they persist
+        self.is_built = True
         return self
 
     def _assert_gamma_only(self):
